@@ -137,6 +137,7 @@ type rawRow struct {
 
 var funcs = []string{"count", "sum", "mean", "min", "max", "first", "last"}
 
+// Group: "" overall | "host" per tag | "time" per bucket | "time,host" per bucket and tag
 type querySpec struct {
 	Func   string `json:"func"`
 	Field  string `json:"field"`
@@ -145,11 +146,14 @@ type querySpec struct {
 	TMax   int64  `json:"tmax"`
 	Bound  bool   `json:"time_bounded"`
 	Filter string `json:"filter,omitempty"` // field filter text
-	Group  string `json:"group"`            // "" | "host" | "time"
+	Group  string `json:"group"`
 	Width  int64  `json:"bucket_ns,omitempty"`
 	Hint   bool   `json:"exact_hint"`
 	Desc   bool   `json:"desc"`
 }
+
+func (q querySpec) byTime() bool { return strings.HasPrefix(q.Group, "time") }
+func (q querySpec) byHost() bool { return strings.HasSuffix(q.Group, "host") }
 
 func (q querySpec) where() string {
 	var cs []string
@@ -176,6 +180,8 @@ func (q querySpec) aggText() string {
 		s += " GROUP BY host"
 	case "time":
 		s += fmt.Sprintf(" GROUP BY time(%dns) fill(none)", q.Width)
+	case "time,host":
+		s += fmt.Sprintf(" GROUP BY time(%dns), host fill(none)", q.Width)
 	}
 	if q.Desc {
 		s += " ORDER BY time DESC"
@@ -189,7 +195,24 @@ func (q querySpec) rawText() string {
 
 // must tells whether the property demands equality for this query in this history.
 func (q querySpec) must(singleGen bool) bool {
-	return q.Hint || q.Filter != "" || q.Group == "time" || singleGen
+	return q.Hint || q.Filter != "" || q.byTime() || singleGen
+}
+
+// statisticsEligible: the shape for which the engine may answer from per-segment
+// statistics instead of data (calls only, no bucket, no field filter, no exact hint).
+func (q querySpec) statisticsEligible() bool {
+	return !q.Hint && q.Filter == "" && !q.byTime()
+}
+
+func (q querySpec) key(host string, t int64) string {
+	var parts []string
+	if q.byHost() {
+		parts = append(parts, host)
+	}
+	if q.byTime() {
+		parts = append(parts, strconv.FormatInt(t-mod(t, q.Width), 10))
+	}
+	return strings.Join(parts, "|")
 }
 
 func parseCell(cell any, kind byte) (model.Value, bool) {
@@ -207,74 +230,60 @@ func num(v model.Value) float64 {
 	return v.F
 }
 
-// expected computes, per group, the admissible answers of f over rows.
+// answer: the admissible values of f over the rows of one group (more than one only for
+// first/last when several series hold the extreme timestamp).
 type answer struct {
-	vals  []float64 // admissible numeric values (len>1 only for first/last ties)
-	isInt bool
+	vals []float64
 }
 
-func expected(q querySpec, rows []rawRow) map[string]answer {
-	groups := map[string][]rawRow{}
-	for _, r := range rows {
-		k := ""
-		switch q.Group {
-		case "host":
-			k = r.host
-		case "time":
-			b := r.t - mod(r.t, q.Width)
-			k = strconv.FormatInt(b, 10)
-		}
-		groups[k] = append(groups[k], r)
+func applyFunc(f string, kind byte, rs []rawRow) answer {
+	var a answer
+	if len(rs) == 0 {
+		return a
 	}
-	out := map[string]answer{}
-	for k, rs := range groups {
-		var a answer
-		switch q.Func {
-		case "count":
-			a = answer{vals: []float64{float64(len(rs))}, isInt: true}
-		case "sum":
-			s := 0.0
-			var si int64
-			for _, r := range rs {
-				s += num(r.v)
-				si += r.v.I
-			}
-			if q.Kind == 'i' {
-				a = answer{vals: []float64{float64(si)}, isInt: true}
-			} else {
-				a = answer{vals: []float64{s}}
-			}
-		case "mean":
-			s := 0.0
-			for _, r := range rs {
-				s += num(r.v)
-			}
-			a = answer{vals: []float64{s / float64(len(rs))}}
-		case "min", "max":
-			m := num(rs[0].v)
-			for _, r := range rs {
-				if q.Func == "min" && num(r.v) < m || q.Func == "max" && num(r.v) > m {
-					m = num(r.v)
-				}
-			}
-			a = answer{vals: []float64{m}, isInt: q.Kind == 'i'}
-		case "first", "last":
-			bt := rs[0].t
-			for _, r := range rs {
-				if q.Func == "first" && r.t < bt || q.Func == "last" && r.t > bt {
-					bt = r.t
-				}
-			}
-			for _, r := range rs {
-				if r.t == bt {
-					a.vals = append(a.vals, num(r.v))
-				}
-			}
-			a.isInt = q.Kind == 'i'
+	switch f {
+	case "count":
+		a.vals = []float64{float64(len(rs))}
+	case "sum":
+		s := 0.0
+		var si int64
+		for _, r := range rs {
+			s += num(r.v)
+			si += r.v.I
 		}
-		out[k] = a
+		if kind == 'i' {
+			a.vals = []float64{float64(si)}
+		} else {
+			a.vals = []float64{s}
+		}
+	case "mean":
+		s := 0.0
+		for _, r := range rs {
+			s += num(r.v)
+		}
+		a.vals = []float64{s / float64(len(rs))}
+	case "min", "max":
+		m := num(rs[0].v)
+		for _, r := range rs {
+			if f == "min" && num(r.v) < m || f == "max" && num(r.v) > m {
+				m = num(r.v)
+			}
+		}
+		a.vals = []float64{m}
+	case "first", "last":
+		bt := rs[0].t
+		for _, r := range rs {
+			if f == "first" && r.t < bt || f == "last" && r.t > bt {
+				bt = r.t
+			}
+		}
+		for _, r := range rs {
+			if r.t == bt {
+				a.vals = append(a.vals, num(r.v))
+			}
+		}
 	}
-	return out
+	return a
 }
 
 func mod(a, b int64) int64 {
@@ -293,12 +302,45 @@ func closeEnough(a, b float64) bool {
 	return d <= 1e-12*math.Max(math.Abs(a), math.Abs(b))
 }
 
-func (rn *runner) checkPair(s *proc.Server, q querySpec) (diff []string, nrows int, err error) {
+func (a answer) admits(g float64) bool {
+	for _, v := range a.vals {
+		if closeEnough(v, g) {
+			return true
+		}
+	}
+	return false
+}
+
+// observation of one query pair.
+type observation struct {
+	nrows    int // rows of the plain select with a value in x
+	nullRows int // rows of the plain select that pass the filter but have a null in x
+	groups   map[string][]rawRow
+	want     map[string]answer
+	got      map[string]float64
+	gotTime  map[string]int64 // the time column of the aggregate's row
+	gotRaw   map[string]string
+	dup      []string // group keys the aggregate returned more than once
+	missing  []string // rows exist, the aggregate has no value
+	extra    []string // the aggregate has a value, the plain select has no row
+	wrong    []string // both exist and differ
+	diff     []string // human-readable, capped
+	aggBody  string
+	rawBody  string
+}
+
+func (o *observation) differs() bool {
+	return len(o.dup)+len(o.missing)+len(o.extra)+len(o.wrong) > 0
+}
+
+func (rn *runner) observe(s *proc.Server, q querySpec) (*observation, error) {
+	o := &observation{groups: map[string][]rawRow{}, want: map[string]answer{}, got: map[string]float64{},
+		gotTime: map[string]int64{}, gotRaw: map[string]string{}}
 	raw, err := s.Query(db, q.rawText(), nil)
 	if err != nil {
-		return nil, 0, err
+		return nil, err
 	}
-	var rows []rawRow
+	o.rawBody = raw.Raw
 	if len(raw.Results) > 0 {
 		for _, se := range raw.Results[0].Series {
 			for _, row := range se.Values {
@@ -307,20 +349,28 @@ func (rn *runner) checkPair(s *proc.Server, q querySpec) (diff []string, nrows i
 				}
 				v, ok := parseCell(row[1], q.Kind)
 				if !ok {
+					// openGemini returns the rows that pass the filter even when the selected
+					// field is null in them; they hold no value of x and count for nothing
+					o.nullRows++
 					continue
 				}
 				t, _ := strconv.ParseInt(fmt.Sprint(row[0]), 10, 64)
-				rows = append(rows, rawRow{t: t, host: se.Tags["host"], v: v})
+				r := rawRow{t: t, host: se.Tags["host"], v: v}
+				k := q.key(r.host, r.t)
+				o.groups[k] = append(o.groups[k], r)
+				o.nrows++
 			}
 		}
 	}
-	want := expected(q, rows)
+	for k, rs := range o.groups {
+		o.want[k] = applyFunc(q.Func, q.Kind, rs)
+	}
 	agg, err := s.Query(db, q.aggText(), nil)
 	if err != nil {
-		return nil, len(rows), err
+		return nil, err
 	}
-	got := map[string]float64{}
-	gotRaw := map[string]string{}
+	o.aggBody = agg.Raw
+	dup := map[string]bool{}
 	if len(agg.Results) > 0 {
 		for _, se := range agg.Results[0].Series {
 			ci := -1
@@ -334,33 +384,41 @@ func (rn *runner) checkPair(s *proc.Server, q querySpec) (diff []string, nrows i
 			}
 			for _, row := range se.Values {
 				if row[ci] == nil {
+					// a null is "no value" (an empty bucket or group); never compared
 					continue
 				}
-				key := ""
-				switch q.Group {
-				case "host":
-					key = se.Tags["host"]
-				case "time":
-					key = fmt.Sprint(row[0])
+				t, _ := strconv.ParseInt(fmt.Sprint(row[0]), 10, 64)
+				var parts []string
+				if q.byHost() {
+					parts = append(parts, se.Tags["host"])
 				}
+				if q.byTime() {
+					// the bucket start as the server reports it
+					parts = append(parts, strconv.FormatInt(t, 10))
+				}
+				key := strings.Join(parts, "|")
 				f, perr := strconv.ParseFloat(fmt.Sprint(row[ci]), 64)
 				if perr != nil {
-					diff = append(diff, fmt.Sprintf("group %q: unparsable value %v", key, row[ci]))
+					o.wrong = append(o.wrong, key)
+					o.diff = append(o.diff, fmt.Sprintf("group %q: unparsable value %v", key, row[ci]))
 					continue
 				}
-				if _, dup := got[key]; dup {
-					diff = append(diff, fmt.Sprintf("group %q returned twice", key))
+				if _, seen := o.got[key]; seen && !dup[key] {
+					dup[key] = true
+					o.dup = append(o.dup, key)
+					o.diff = append(o.diff, fmt.Sprintf("group %q returned more than once", key))
 				}
-				got[key] = f
-				gotRaw[key] = fmt.Sprint(row[ci])
+				o.got[key] = f
+				o.gotTime[key] = t
+				o.gotRaw[key] = fmt.Sprint(row[ci])
 			}
 		}
 	}
 	keys := map[string]bool{}
-	for k := range want {
+	for k := range o.want {
 		keys[k] = true
 	}
-	for k := range got {
+	for k := range o.got {
 		keys[k] = true
 	}
 	var ks []string
@@ -369,37 +427,125 @@ func (rn *runner) checkPair(s *proc.Server, q querySpec) (diff []string, nrows i
 	}
 	sort.Strings(ks)
 	for _, k := range ks {
-		w, wok := want[k]
-		g, gok := got[k]
+		w, wok := o.want[k]
+		g, gok := o.got[k]
 		switch {
 		case wok && !gok:
-			// count over zero rows may legitimately be omitted, but here rows exist
-			diff = append(diff, fmt.Sprintf("group %q: no value, rows give %v", k, w.vals))
+			o.missing = append(o.missing, k)
+			o.diff = append(o.diff, fmt.Sprintf("group %q: no value, rows give %v", k, w.vals))
 		case !wok && gok:
 			if q.Func == "count" && g == 0 {
-				continue
+				continue // count over no row may be reported as 0
 			}
-			diff = append(diff, fmt.Sprintf("group %q: %s but the plain select returns no row there", k, gotRaw[k]))
+			o.extra = append(o.extra, k)
+			o.diff = append(o.diff, fmt.Sprintf("group %q: %s but the plain select returns no row there", k, o.gotRaw[k]))
 		default:
-			ok := false
-			for _, v := range w.vals {
-				if closeEnough(v, g) {
-					ok = true
-				}
-			}
-			if !ok {
-				diff = append(diff, fmt.Sprintf("group %q: %s(%s) = %s, over the rows of the plain select = %v", k, q.Func, q.Field, gotRaw[k], w.vals))
+			if !w.admits(g) {
+				o.wrong = append(o.wrong, k)
+				o.diff = append(o.diff, fmt.Sprintf("group %q: %s(%s) = %s, over the rows of the plain select = %v", k, q.Func, q.Field, o.gotRaw[k], w.vals))
 			}
 		}
 	}
-	if len(diff) > 5 {
-		diff = diff[:5]
+	if len(o.diff) > 5 {
+		o.diff = o.diff[:5]
 	}
-	if len(diff) > 0 && os.Getenv("VERIF_C09_DEBUG") != "" {
+	if o.differs() && os.Getenv("VERIF_C09_DEBUG") != "" {
 		fmt.Printf("DEBUG agg: %s\n  %s\nDEBUG raw: %s\n  %s\n", q.aggText(), agg.Raw, q.rawText(), raw.Raw)
 	}
-	return diff, len(rows), nil
+	return o, nil
 }
+
+// classify derives the finding signature from the observation. Each named class is the
+// footprint of one root cause (see known_findings.d/c09.json); everything else keeps the
+// generic signature, which no known finding matches.
+func (rn *runner) classify(s *proc.Server, q querySpec, o *observation, l kit.Layout) string {
+	why := "single-generation-history"
+	switch {
+	case q.Hint:
+		why = "exact-hint"
+	case q.Filter != "":
+		why = "field-filter"
+	case q.byTime():
+		why = "time-bucket"
+	}
+	generic := fmt.Sprintf("aggregate-differs-from-rows|%s|group=%s|%s", q.Func, q.Group, why)
+	onlyWrong := len(o.wrong) > 0 && len(o.dup)+len(o.missing)+len(o.extra) == 0
+
+	// (1) descending order with time buckets
+	if q.Desc && q.byTime() {
+		if (q.Func == "first" || q.Func == "last") && onlyWrong {
+			opposite := map[string]string{"first": "last", "last": "first"}[q.Func]
+			all := true
+			for _, k := range o.wrong {
+				if !applyFunc(opposite, q.Kind, o.groups[k]).admits(o.got[k]) {
+					all = false
+				}
+			}
+			if all {
+				return "first-last-swapped-under-order-by-time-desc|group=" + q.Group
+			}
+		}
+		asc := q
+		asc.Desc = false
+		if ao, err := rn.observe(s, asc); err == nil && !ao.differs() && l.Ordered >= 2 && (l.ActiveMem || l.Unordered > 0) {
+			return "order-by-time-desc-differs-while-asc-agrees|several-ordered-files-plus-late-rows|group=" + q.Group
+		}
+		return generic
+	}
+	// (2) rows that pass the field filter but hold a null in the aggregated field
+	if q.Filter != "" && o.nullRows > 0 {
+		shape := ""
+		switch {
+		case len(o.dup) > 0:
+			shape = "group-returned-more-than-once"
+		case len(o.extra)+len(o.wrong) == 0:
+			shape = "values-lost"
+		default:
+			// every returned value is the correct value of some group
+			shifted := true
+			for _, k := range append(append([]string{}, o.extra...), o.wrong...) {
+				found := false
+				for _, w := range o.want {
+					if w.admits(o.got[k]) {
+						found = true
+					}
+				}
+				if !found {
+					shifted = false
+				}
+			}
+			if shifted {
+				shape = "values-attributed-to-another-group"
+			}
+		}
+		if shape != "" {
+			return fmt.Sprintf("null-in-aggregated-field-with-field-filter|group=%s|%s", q.Group, shape)
+		}
+		return generic
+	}
+	// (3) first/last answered from file statistics: the value of one row with the time of
+	// another one
+	if (q.Func == "first" || q.Func == "last") && q.statisticsEligible() && onlyWrong {
+		all := true
+		for _, k := range o.wrong {
+			found := false
+			for _, r := range o.groups[k] {
+				if closeEnough(num(r.v), o.got[k]) && r.t != o.gotTime[k] {
+					found = true
+				}
+			}
+			if !found {
+				all = false
+			}
+		}
+		if all {
+			return "first-last-from-statistics-carries-time-of-another-row|group=" + q.Group
+		}
+	}
+	return generic
+}
+
+var filters = []string{"fi > 0", "ff >= 0", "fb = true", "fi % 2 = 0"}
 
 func genQuery(r *rand.Rand, times []int64) querySpec {
 	fields := []struct {
@@ -427,11 +573,15 @@ func genQuery(r *rand.Rand, times []int64) querySpec {
 	}
 	q.TMin, q.TMax = a, b
 	q.Bound = r.IntN(5) != 0
-	switch r.IntN(3) {
+	switch r.IntN(4) {
 	case 1:
 		q.Group = "host"
 	case 2:
 		q.Group = "time"
+	case 3:
+		q.Group = "time,host"
+	}
+	if q.byTime() {
 		q.Bound = true
 		q.Width = []int64{1_000_000_000, 2_000_000_000, 5_000_000_000, 7_000_000_000}[r.IntN(4)]
 		if q.TMin < lo-5_000_000_000 {
@@ -439,17 +589,40 @@ func genQuery(r *rand.Rand, times []int64) querySpec {
 		}
 	}
 	if r.IntN(4) == 0 {
-		q.Filter = []string{"fi > 0", "ff >= 0", "fb = true", "fi % 2 = 0"}[r.IntN(3)]
+		q.Filter = filters[r.IntN(len(filters))]
 	}
 	q.Hint = r.IntN(3) == 0
-	q.Desc = r.IntN(4) == 0 && q.Group == "time"
+	q.Desc = r.IntN(4) == 0
 	return q
+}
+
+func rangeClass(q querySpec, times []int64) string {
+	if !q.Bound {
+		return "unbounded"
+	}
+	cl := func(t int64) string {
+		switch {
+		case t < times[0]:
+			return "below-data"
+		case t > times[len(times)-1]:
+			return "above-data"
+		case mod(t, 1_000_000_000) == 0:
+			return "on-a-timestamp"
+		}
+		return "between-timestamps"
+	}
+	return cl(q.TMin) + ".." + cl(q.TMax)
 }
 
 func disableBackground(s *proc.Server) {
 	s.HTTP.Post(s.URL()+"/debug/ctrl?mod=compen&switchon=false&allshards=true", "", nil)
 	s.HTTP.Post(s.URL()+"/debug/ctrl?mod=merge&switchon=false&allshards=true", "", nil)
 }
+
+const maxUnknownPerHistory = 2
+
+var layoutCats = []string{"memtable-rows", "ordered-files", "out-of-order-files", "compacted-files"}
+var reached sync.Map // layout category -> true
 
 func (rn *runner) run(h *history, worker int, only *querySpec) {
 	c := rn.c
@@ -480,6 +653,7 @@ func (rn *runner) run(h *history, worker int, only *querySpec) {
 	}
 	disableBackground(s)
 	u := kit.NewUniverse(1, 5, 24)
+	unknown := 0
 	for i := range h.Steps {
 		st := &h.Steps[i]
 		switch st.Op {
@@ -506,14 +680,23 @@ func (rn *runner) run(h *history, worker int, only *querySpec) {
 		case "check":
 			l := kit.ReadLayout(s, db)
 			c.Distinct("layout-vector", l.String())
+			for j, have := range []bool{l.ActiveMem, l.Ordered > 0, l.Unordered > 0, l.MaxLevel > 0} {
+				if have {
+					c.Count("checkpoints-with-"+layoutCats[j], 1)
+					reached.Store(layoutCats[j], true)
+				}
+			}
 			nq := c.Pick(14, 40)
 			for k := 0; k < nq; k++ {
 				q := genQuery(r, u.Times)
 				if only != nil {
+					if k > 0 {
+						break
+					}
 					q = *only
 					q.Kind = map[string]byte{"fi": 'i', "ff": 'f'}[q.Field]
 				}
-				diff, nrows, err := rn.checkPair(s, q)
+				o, err := rn.observe(s, q)
 				if err != nil {
 					if !s.Alive() {
 						c.Violation("server-died:"+firstFatal(s.StdoutTail(1<<20)), fmt.Sprintf("history %d: server died answering %s", h.Index, q.aggText()),
@@ -525,36 +708,49 @@ func (rn *runner) run(h *history, worker int, only *querySpec) {
 					continue
 				}
 				c.Eval(1)
-				shape := fmt.Sprintf("%s|group=%s|bounded=%v|filter=%v|hint=%v", q.Func, q.Group, q.Bound, q.Filter != "", q.Hint)
+				shape := fmt.Sprintf("%s|group=%s|bounded=%v|filter=%v|hint=%v|desc=%v", q.Func, q.Group, q.Bound, q.Filter != "", q.Hint, q.Desc)
 				c.Distinct("query-shape", shape)
-				if nrows > 0 {
+				c.Distinct("time-range-ends", rangeClass(q, u.Times))
+				if o.nrows > 0 {
 					c.Nontrivial(shape + "|" + l.String())
 				}
-				if !q.must(h.SingleGen) {
+				if !q.must(h.SingleGen) && only == nil {
 					c.Count("pairs-not-demanded-by-the-property(multi-generation,no-hint)", 1)
-					if len(diff) > 0 {
+					if o.differs() {
 						c.Count("pairs-not-demanded-that-differ", 1)
 					}
 					continue
 				}
 				c.Count("pairs-judged", 1)
-				if len(diff) > 0 {
-					why := "single-generation-history"
-					switch {
-					case q.Hint:
-						why = "exact-hint"
-					case q.Filter != "":
-						why = "field-filter"
-					case q.Group == "time":
-						why = "time-bucket"
+				c.Count("rows-compared", int64(o.nrows))
+				c.Count("groups-compared", int64(len(o.want)))
+				if o.nrows > 0 {
+					if o.nullRows > 0 {
+						c.Count("pairs-judged-with-null-in-aggregated-field-among-filtered-rows", 1)
 					}
-					c.Violation(fmt.Sprintf("aggregate-differs-from-rows|%s|group=%s|%s", q.Func, q.Group, why),
-						fmt.Sprintf("history %d (%s, layout %s): %s  vs  %s: %s", h.Index, h.Config, l.String(), q.aggText(), q.rawText(), strings.Join(diff, "; ")),
-						map[string]any{"history": history{Index: h.Index, Config: h.Config, SingleGen: h.SingleGen, Steps: h.Steps[:i+1]}, "query": q, "diff": diff})
-					return
+					if q.statisticsEligible() {
+						c.Count("pairs-judged-eligible-for-stored-statistics(no-hint,no-filter,no-bucket)", 1)
+						if q.Bound && l.Ordered > 0 {
+							c.Count("pairs-judged-eligible-for-stored-statistics-with-bounded-range-over-files", 1)
+						}
+					}
+					if q.Desc {
+						c.Count("pairs-judged-descending", 1)
+					}
 				}
-				if only != nil {
-					break
+				if o.differs() {
+					sig := rn.classify(s, q, o, l)
+					known := c.Violation(sig,
+						fmt.Sprintf("history %d (%s, layout %s): %s  vs  %s: %s", h.Index, h.Config, l.String(), q.aggText(), q.rawText(), strings.Join(o.diff, "; ")),
+						map[string]any{"history": history{Index: h.Index, Config: h.Config, SingleGen: h.SingleGen, Steps: h.Steps[:i+1]}, "query": q, "diff": o.diff,
+							"aggregate_response": o.aggBody, "plain_response": o.rawBody})
+					if !known {
+						unknown++
+						if unknown >= maxUnknownPerHistory {
+							c.Count("histories-abandoned-after-unknown-violations", 1)
+							return
+						}
+					}
 				}
 			}
 		}
@@ -588,8 +784,8 @@ func firstFatal(s string) string {
 
 func main() {
 	c := vf.New("C09", "exploration")
-	c.SetRule("seeded histories over 5 series × 24 timestamps (null-heavy columns, late data, small segments) with flush / level+full compaction / out-of-order merge at seeded positions on a real ts-server; at check points generated query pairs (f ∈ count,sum,mean,min,max,first,last; overall / per tag / per epoch-aligned time bucket; time ranges ending inside, on the edge of and outside stored data; field filters; exact hint on/off; asc/desc): SELECT f(x) must equal f over the rows SELECT x returns; pairs the property does not demand (multi-generation history, no hint/filter/bucket) are counted separately; distinct non-trivial = distinct (query shape, layout vector) with at least one row")
-	c.Assume("the plain select is the reference (its own correctness is C02/C08); first/last ties across series admit any of the tied values")
+	c.SetRule("seeded histories over 5 series × 24 timestamps (null-heavy columns, late data, max-rows-per-segment 3 / 8 / default) with flush / level+full compaction / out-of-order merge at seeded positions on a real ts-server; at check points generated query pairs (f ∈ count,sum,mean,min,max,first,last; overall / per tag / per epoch-aligned time bucket / per bucket and tag; time ranges ending on a stored timestamp, between two, below and above the data; four field filters; exact hint on/off; asc/desc): SELECT f(x) must equal f over the rows SELECT x returns; pairs the property does not demand (multi-generation history, no hint/filter/bucket) are counted separately; distinct non-trivial = distinct (query shape, layout vector) with at least one row")
+	c.Assume("the plain select is the reference (its own correctness is C02/C08); rows it returns with a null in x hold no value of x; first/last ties across series admit any of the tied values; a null in the aggregate's answer means no value; count = 0 for a group without rows is accepted")
 	bin, err := proc.Build(c.RepoDir, c.Scratch, "ts-server", false)
 	if err != nil {
 		c.Broken("build ts-server: %v", err)
@@ -613,20 +809,30 @@ func main() {
 			c.Finish()
 		}
 		h := &w.Witness.History
-		for i := range h.Steps {
-			for _, ln := range h.Steps[i].Points {
+		// only the final check point is replayed, with the recorded query
+		var kept []step
+		for i, st := range h.Steps {
+			if st.Op == "check" && i != len(h.Steps)-1 {
+				continue
+			}
+			for _, ln := range st.Points {
 				p, err := model.ParseLP(ln)
 				if err != nil {
 					c.Broken("replay: %v", err)
 					c.Finish()
 				}
-				h.Steps[i].pts = append(h.Steps[i].pts, p)
+				st.pts = append(st.pts, p)
 			}
+			kept = append(kept, st)
 		}
-		if h.Steps[len(h.Steps)-1].Op != "check" {
+		h.Steps = kept
+		if len(h.Steps) == 0 || h.Steps[len(h.Steps)-1].Op != "check" {
 			h.Steps = append(h.Steps, step{Op: "check"})
 		}
 		rn.run(h, 0, &w.Witness.Query)
+		if c.Violations() == 0 {
+			fmt.Println("REPLAY C09: the recorded pair agrees now")
+		}
 		c.Nontrivial("replay-a")
 		c.Nontrivial("replay-b")
 		c.Finish()
@@ -648,5 +854,11 @@ func main() {
 		}(h, w)
 	}
 	wg.Wait()
+	// data layouts the design requires
+	for _, cat := range layoutCats {
+		if _, ok := reached.Load(cat); !ok {
+			c.Inconclusive("category-not-reached:"+cat, 1)
+		}
+	}
 	c.Finish()
 }
